@@ -1,8 +1,9 @@
 ------------------------------ MODULE Trace_C19 ------------------------------
-EXTENDS DiffReportContract
+EXTENDS DiffReportContract, Json, IOUtils
 VARIABLES l, ok
 EvOK(e) == IF e.ev = "diff" THEN C19OK(e) ELSE TRUE
-T == INSTANCE TraceStateless WITH EventOK <- EvOK
+TraceData == ndJsonDeserialize(IOEnv.TRACE)
+T == INSTANCE TraceStateless WITH EventOK <- EvOK, Trace <- TraceData
 Spec == T!TSSpec
 Accepted == T!TSAccepted
 =============================================================================
